@@ -112,9 +112,9 @@ def mul_mont_384_val(a, b, ex=None):
         return a * b * pow(1 << 384, -1, P381) % P381
     # multiplication by the constants R^2 and 1 are the Montgomery conversions
     if isinstance(b, int) and b == RR384:
-        return to_mont(a)
+        return to_mont(reduced_p(ex, a))
     if isinstance(a, int) and a == RR384:
-        return to_mont(b)
+        return to_mont(reduced_p(ex, b))
     if isinstance(b, int) and b == 1:
         return from_mont(a)
     if isinstance(a, int) and a == 1:
@@ -138,6 +138,18 @@ def mul_mont_384_val(a, b, ex=None):
 def reduce_p(a):
     # x*R*R^-1 mod p : identity on reduced values; callers only pass reduced values
     return a
+
+def reduced_p(ex, a):
+    """x*R^2*R^-1 mod p is the Montgomery form of x MOD p: the rewrite from_mont(to_mont(x)) = x is only exact for
+    x < p, so a raw operand (bytes of the input) that is not provably below p is reduced first (the path forks)"""
+    if ex is None or isinstance(a, int) or not z3.is_bv(a):
+        return a % P381 if isinstance(a, int) else a
+    if z3.is_app(a) and a.decl().kind() == z3.Z3_OP_UNINTERPRETED:
+        return a            # outputs of the field model are reduced
+    PP = z3.BitVecVal(P381, 384)
+    if ex.decide(z3.ULT(a, PP)):
+        return a
+    return simp(z3.URem(a, PP))
 
 def to_mont(a):
     if isinstance(a, int):
@@ -619,7 +631,7 @@ def install(L):
 
 TRUSTED_A = [
  'add_mod_384/256, sub_mod_384/256, cneg_mod_384/256: exact integer semantics incl. non-reduced inputs (bit-vector arithmetic)',
- 'mul(x)_mont_384, sqr(x)_mont_384, from(x)_mont_384: uninterpreted commutative product with rewrite rules for the Montgomery constants (x*R^2 -> to_mont(x), from_mont(to_mont(x)) = x)',
+ 'mul(x)_mont_384, sqr(x)_mont_384, from(x)_mont_384: uninterpreted commutative product with rewrite rules for the Montgomery constants (x*R^2 -> to_mont(x mod p) with a fork on x < p for raw operands, from_mont(to_mont(x)) = x)',
  'sqrt_fp / sqrt_fp2: uninterpreted (is_square, root) of the argument term',
  'sgn0(x)_pty_mont_384(x): exact sign/parity when the canonical value is a known term, otherwise uninterpreted of the Montgomery term',
  'vec_is_zero, vec_is_equal, vec_zero, vec_copy, vec_select_N: exact on bytes',
